@@ -103,9 +103,30 @@ type restCase struct {
 var restMethods = []restCase{
 	{"sim2", "Query"}, {"sim2", "PathStr"}, {"sim2", "PathMulti"}, {"sim2", "PathNested"}, {"sim2", "BodyStar"}, {"sim2", "BodyNested"}, {"sim2", "BodyList"}, {"sim2", "BodyScalar"},
 	{"sim2", "Bytes"}, {"sim2", "Del"},
+	{"sim2", "RawBody"},
 	{"library", "GetBook"}, {"library", "CreateBook"}, {"library", "ListBooks"}, {"library", "CreateShelf"}, {"library", "UpdateBook"}, {"library", "DeleteBook"}, {"library", "SearchBooks"},
 	{"library", "MoveBooks"}, {"library", "CheckoutBooks"}, {"library", "ReturnBooks"}, {"library", "GetCheckout"}, {"library", "ListCheckouts"}, {"library", "ListShelves"},
 	{"sim", "RestAll"},
+}
+
+// tidyHTTPBody keeps a google.api.HttpBody to what its raw form can carry: bytes and a content type. (The extensions
+// field has no place in a raw body, and which content type stands for "none" is not defined.)
+func tidyHTTPBody(c *Chooser, m protoreflect.Message) {
+	if !isHTTPBodyMsg(m.Descriptor()) {
+		return
+	}
+	fs := m.Descriptor().Fields()
+	m.Clear(fs.ByName("extensions"))
+	ct := m.Get(fs.ByName("content_type")).String()
+	ok := ct != ""
+	for _, r := range ct {
+		if r < 0x21 || r > 0x7e {
+			ok = false
+		}
+	}
+	if !ok {
+		m.Set(fs.ByName("content_type"), protoreflect.ValueOfString(Pick(c, "application/octet-stream", "text/plain", "image/png", "application/x-custom+thing")))
+	}
 }
 
 // genRESTClientRPC draws one well-formed REST request for a bound method of cfg (rendered by the reference encoder from a
@@ -118,7 +139,9 @@ func genRESTClientRPC(c *Chooser, cfg *ConfigPlan, rcase restCase) *RPCPlan {
 	mo := &MsgGenOpts{MaxDepth: 2, MaxBytes: 24, SingleEntry: true}
 	msg := genMessage(c, b.method.Input(), mo, 0)
 	sanitizeForBinding(c, b, msg.ProtoReflect())
+	tidyHTTPBody(c, msg.ProtoReflect())
 	resp := genMessage(c, b.method.Output(), mo, 0)
+	tidyHTTPBody(c, resp.ProtoReflect())
 	req, ok := refEncodeRequest(b, msg, c.Bool())
 	if !ok {
 		return nil
@@ -335,7 +358,9 @@ func init() {
 			mo := &MsgGenOpts{MaxDepth: 2, MaxBytes: 24, SingleEntry: true, NoNaN: false}
 			msg := genMessage(c, b.method.Input(), mo, 0)
 			sanitizeForBinding(c, b, msg.ProtoReflect())
+			tidyHTTPBody(c, msg.ProtoReflect())
 			resp := genMessage(c, b.method.Output(), mo, 0)
+			tidyHTTPBody(c, resp.ProtoReflect())
 			bp := BackendPlan{Resp: RespPlan{Msgs: []MsgSpec{{Data: canonBytes(resp)}}, TrailerStyle: "prefix"}}
 			var cp ClientPlan
 			if topo == "rest-client" {
@@ -351,7 +376,7 @@ func init() {
 					}
 					cp.ContentType = req.ContentType
 				}
-				if c.Prob(0.2) {
+				if c.Prob(0.2) && !isHTTPBodyMsg(b.method.Input()) {
 					extra := Pick(c, "int32_value=abc", "int32Value=2147483648", "bool_value=maybe", "uint32_value=-1", "page_size=1.5", "nosuchfield=1", "enum_value=NOPE", "double_value=1e999",
 						"timestamp=yesterday", "duration=5", "nested.enum_value=7x", "int64_value=9223372036854775808", "bytes_value=!!!", "book.name.x=1", "string_map=a")
 					if cp.RawQuery != "" {
